@@ -574,3 +574,22 @@ m("x7-option-bitmap-is-some-and-shifted", "C05", BM, "        if let Some(inner)
   "        self.as_ref().is_some_and(|inner| inner.dirty_at(offset + 1))", "R5.3.option")
 m("x7-option-bitmap-slice-at-zero", "C05", BM, "        if let Some(inner) = self {\n            return Some(inner.slice_at(offset));\n        }\n        None",
   "        self.as_ref().map(|inner| inner.slice_at(0))", "R5.3.option")
+m("x7-bitmap-closure-arms-swapped", "C09,C05,C16", AB, """        for n in first_bit..=last_bit {
+            if n >= self.size {
+                // Attempts to set bits beyond the end of the bitmap are simply ignored.
+                break;
+            }
+            if set {
+                self.map[n >> 6].fetch_or(1 << (n & 63), Ordering::SeqCst);
+            } else {
+                self.map[n >> 6].fetch_and(!(1 << (n & 63)), Ordering::SeqCst);
+            }
+        }""", """        (first_bit..=last_bit)
+            .take_while(|&n| n < self.size)
+            .for_each(|n| {
+                if !set {
+                    self.map[n >> 6].fetch_or(1 << (n & 63), Ordering::SeqCst);
+                } else {
+                    self.map[n >> 6].fetch_and(!(1 << (n & 63)), Ordering::SeqCst);
+                }
+            });""", "R9.6.polarity")
